@@ -474,6 +474,51 @@ var natNames = [...]string{"filtered", "open", "symmetric"}
 type firewall struct {
 	mode    map[string]int
 	lastOut map[string]time.Duration // "fromIP>toIP" -> virtual time of the last outbound attempt
+	flow    map[string]bool          // UDP: "ipX|ipY" (sorted) -> datagrams have passed in both directions
+	closed  map[string]bool          // UDP: nothing reaches this IP (environment step)
+	dropped int
+	punches int
+}
+
+// an established UDP flow keeps its NAT mapping this long after the last datagram of either direction
+const udpFlowIdle = 2 * time.Minute
+
+// udp is simnet's SetUDPFilter verdict: endpoint-dependent filtering. A datagram from X towards a node Y in mode
+// natFiltered is dropped unless Y has sent a datagram to X within the last natWindow (or the flow X<->Y is
+// established and not idle for udpFlowIdle); natSymmetric: always dropped; natOpen / not behind a NAT: passes.
+// Drawn loss / duplication / latency (simnet.UDPConfig) applies to what passes.
+func (f *firewall) udp(from, to *net.UDPAddr, data []byte) simnet.UDPVerdict {
+	x, y := from.IP.String(), to.IP.String()
+	if _, ok := f.mode[y]; ok && len(data) == 64 {
+		f.punches++ // the QUIC transport's holePunch() sends 64 random bytes (QUIC's own packets of that size are rare)
+	}
+	now := simrt.Now()
+	prev, had := f.lastOut[y+">"+x]
+	f.lastOut[x+">"+y] = now
+	fk := x + "|" + y
+	if y < x {
+		fk = y + "|" + x
+	}
+	drop := func() simnet.UDPVerdict { f.dropped++; return simnet.UDPDrop }
+	if f.closed[y] {
+		return drop()
+	}
+	mode, behind := f.mode[y]
+	if !behind || mode == natOpen {
+		return simnet.UDPPass
+	}
+	if mode == natSymmetric || !had {
+		return drop()
+	}
+	if f.flow[fk] && now-prev <= udpFlowIdle {
+		return simnet.UDPPass
+	}
+	if now-prev > natWindow {
+		delete(f.flow, fk)
+		return drop()
+	}
+	f.flow[fk] = true // Y sent to X recently and X's datagram now reaches Y: both directions are open
+	return simnet.UDPPass
 }
 
 // blocked is simnet's SetBlocked predicate (called for every dial attempt, under simnet's lock)
@@ -567,6 +612,7 @@ const (
 	modeA    = iota // layer A: free mix of callers and environment tasks
 	modeB           // layer B: hole punching behind firewalls
 	modeRace        // layer A, targeted: waiters start while a direct connection is being registered
+	modeQUIC        // layer B over QUIC: direct addresses are QUIC addresses, NAT modelled on the UDP wire
 )
 
 // one round of the race stratum: the peer is reachable over the limited connection only; 1-4 waiter
@@ -587,7 +633,8 @@ type raceRound struct {
 }
 
 func runWorld(t *testing.T, tape *simrt.Tape, g simrt.Gen, mode int) *common.Outcome {
-	layerB := mode == modeB
+	quic := mode == modeQUIC
+	layerB := mode == modeB || quic
 	o := &common.Outcome{}
 	w := &world{o: o, layerB: layerB, probed: map[string]bool{}}
 	for i := range w.v {
@@ -637,6 +684,13 @@ func runWorld(t *testing.T, tape *simrt.Tape, g simrt.Gen, mode int) *common.Out
 		timeouts = []time.Duration{40 * time.Second, 3 * time.Second, 90 * time.Second, 15 * time.Second}
 		nCallers = g.Range(1, 3)
 		nEnvs = g.Range(0, 1)
+	}
+	var udpCfg simnet.UDPConfig
+	if quic {
+		// faults of the UDP wire in part of the runs (they stop before the closing phase)
+		udpCfg.DropPermille = []int{0, 0, 50, 150}[g.Int(4)]
+		udpCfg.DupPermille = []int{0, 50}[g.Weighted(2, 1)]
+		udpCfg.Latencies = [][]time.Duration{nil, {0, 5 * time.Millisecond, 40 * time.Millisecond}, {0, 20 * time.Millisecond, 250 * time.Millisecond}}[g.Int(3)]
 	}
 	callers := make([][]opSpec, nCallers)
 	for c := range callers {
@@ -712,6 +766,9 @@ func runWorld(t *testing.T, tape *simrt.Tape, g simrt.Gen, mode int) *common.Out
 	} else if !layerB {
 		o.Logf("layer A: relay=%d(0 default limits,1 15s limit,2 unlimited) initial=%d(0 limited,1 none,2 direct,3 both) reachable=%v security=%s", relayMode, initial, reachable, secu)
 	} else {
+		if quic {
+			o.Logf("QUIC stratum (A and B listen on QUIC only; NAT = UDP filter): udp drop=%d dup=%d latencies=%v", udpCfg.DropPermille, udpCfg.DupPermille, udpCfg.Latencies)
+		}
 		o.Logf("layer B: relay=%d(0 default limits,1 15s limit,2 unlimited) firewall A=%s B=%s latencies=%v directDialTimeout=%v A-knows-B's-direct-address=%v relay-address-advertised=%v wrapped-service=%v security=%s",
 			relayMode, natNames[natA], natNames[natB], latencies, directDialTimeout, knowsDirect, advertiseRelayAddr, w.wrapped, secu)
 	}
@@ -733,16 +790,30 @@ func runWorld(t *testing.T, tape *simrt.Tape, g simrt.Gen, mode int) *common.Out
 	reflectOK := true
 	var postDirect string
 
-	res := simrt.Run(t, simrt.Config{MaxSteps: 2500000, IdleLimit: time.Hour, TraceCap: 3000}, tape.S, func() {
+	var udpCounts map[string]int
+	var udpLeft []string
+	res := simrt.Run(t, simrt.Config{MaxSteps: 4000000, IdleLimit: time.Hour, TraceCap: 3000}, tape.S, func() {
 		n := simnet.New(tape.S, simnet.Config{Mode: simnet.Whole, Latencies: latencies})
+		if quic {
+			// QUIC connection teardown is a datagram exchange: let it end after every node was closed (deferred calls run first)
+			defer func() {
+				simrt.TimeSleep(10 * time.Second)
+				udpCounts, udpLeft = n.UDPCounts(), n.UDPSockets()
+			}()
+		}
 		ipR, ipA, ipB := "10.0.9.1", "10.0.0.1", "10.0.1.1"
 		if layerB {
 			ipR, ipA, ipB = "5.5.5.1", "2.2.0.1", "3.3.0.1"
 		}
-		fw := &firewall{mode: map[string]int{}, lastOut: map[string]time.Duration{}}
+		fw := &firewall{mode: map[string]int{}, lastOut: map[string]time.Duration{}, flow: map[string]bool{}, closed: map[string]bool{}}
 		if layerB {
 			fw.mode[ipA], fw.mode[ipB] = natA, natB
-			n.SetBlocked(fw.blocked)
+			if quic {
+				n.SetUDPFilter(fw.udp)
+				n.SetUDP(udpCfg)
+			} else {
+				n.SetBlocked(fw.blocked)
+			}
 		}
 		bus := eventbus.NewBus()
 		R, err := simhost.New(n, simhost.Opts{Key: simhost.DetKey(100), IP: ipR, Port: 4001, Security: secu, WithHost: true})
@@ -780,14 +851,15 @@ func runWorld(t *testing.T, tape *simrt.Tape, g simrt.Gen, mode int) *common.Out
 			}
 			return ho
 		}
-		B, err := simhost.New(n, simhost.Opts{Key: simhost.DetKey(2), IP: ipB, Port: 4001, Security: secu, WithHost: true, HostOpts: mkOpts(1), Gater: &recGater{w.v[1]}})
+		B, err := simhost.New(n, simhost.Opts{Key: simhost.DetKey(2), IP: ipB, Port: 4001, Security: secu, WithHost: true, HostOpts: mkOpts(1), Gater: &recGater{w.v[1]},
+			QUIC: quic, NoTCPListen: quic})
 		if err != nil {
 			o.Trouble = "host B: " + err.Error()
 			return
 		}
 		defer B.Close()
 		A, err := simhost.New(n, simhost.Opts{Key: simhost.DetKey(1), IP: ipA, Port: 4001, Security: secu, WithHost: true, HostOpts: mkOpts(0), Bus: bus, Gater: &recGater{w.v[0]},
-			SwarmOpts: []swarm.Option{swarm.WithMultiaddrResolver(dns)}})
+			SwarmOpts: []swarm.Option{swarm.WithMultiaddrResolver(dns)}, QUIC: quic, NoTCPListen: quic})
 		if err != nil {
 			o.Trouble = "host A: " + err.Error()
 			return
@@ -796,6 +868,10 @@ func runWorld(t *testing.T, tape *simrt.Tape, g simrt.Gen, mode int) *common.Out
 		w.ids = [2]peer.ID{A.ID, B.ID}
 		w.v[0].other, w.v[1].other = B.ID, A.ID
 		nodes := [2]*simhost.Node{A, B}
+		addrA, addrB, dns4B := A.Addr, B.Addr, "/dns4/bhost.c12/tcp/4001"
+		if quic {
+			addrA, addrB, dns4B = A.QAddr, B.QAddr, "/dns4/bhost.c12/udp/4001/quic-v1"
+		}
 		if waiterEntries(A.Swarm) < 0 {
 			reflectOK = false
 		}
@@ -892,7 +968,7 @@ func runWorld(t *testing.T, tape *simrt.Tape, g simrt.Gen, mode int) *common.Out
 			B.PS.AddAddrs(A.ID, []ma.Multiaddr{circuitVia}, peerstore.PermanentAddrTTL)
 		}
 		dns.dnsaddr["relay.b.c12"] = []string{fmt.Sprintf("%s/p2p/%s", circuitVia, B.ID)}
-		dns.dnsaddr["direct.b.c12"] = []string{fmt.Sprintf("%s/p2p/%s", B.Addr, B.ID)}
+		dns.dnsaddr["direct.b.c12"] = []string{fmt.Sprintf("%s/p2p/%s", addrB, B.ID)}
 		var forB []ma.Multiaddr
 		switch dnsRelay {
 		case 0:
@@ -905,17 +981,17 @@ func runWorld(t *testing.T, tape *simrt.Tape, g simrt.Gen, mode int) *common.Out
 			forB = append(forB, ma.StringCast(fmt.Sprintf("/dns4/relayhost.c12/tcp/4001/p2p/%s/p2p-circuit", R.ID)))
 		}
 		if knowsDirect {
-			forB = append(forB, B.Addr)
+			forB = append(forB, addrB)
 			switch dnsDirect {
 			case 1:
 				forB = append(forB, ma.StringCast(fmt.Sprintf("/dnsaddr/direct.b.c12/p2p/%s", B.ID)))
 			case 2:
-				forB = append(forB, ma.StringCast("/dns4/bhost.c12/tcp/4001"))
+				forB = append(forB, ma.StringCast(dns4B))
 			}
 		}
 		A.PS.AddAddrs(B.ID, forB, peerstore.PermanentAddrTTL)
 		if !layerB {
-			B.PS.AddAddrs(A.ID, []ma.Multiaddr{A.Addr}, peerstore.PermanentAddrTTL)
+			B.PS.AddAddrs(A.ID, []ma.Multiaddr{addrA}, peerstore.PermanentAddrTTL)
 		}
 
 		// initial connections (layer A)
@@ -1056,10 +1132,12 @@ func runWorld(t *testing.T, tape *simrt.Tape, g simrt.Gen, mode int) *common.Out
 						if aReserves {
 							B.Swarm.ClosePeer(A.ID)
 							n.SetRefused(aDirect, true)
+							fw.closed[ipA] = true
 							serr = with(5*time.Second, func(ctx context.Context) error {
 								return B.Host.Connect(network.WithAllowLimitedConn(ctx, "c12"), peer.AddrInfo{ID: A.ID})
 							})
 							n.SetRefused(aDirect, false)
+							fw.closed[ipA] = false
 						}
 					}
 					o.Logf("env%d %s done @%d t=%v err=%v", e, envNames[st.kind], simrt.Stamp(), simrt.Now(), serr != nil)
@@ -1145,13 +1223,16 @@ func runWorld(t *testing.T, tape *simrt.Tape, g simrt.Gen, mode int) *common.Out
 
 		// after all waiters left: a direct connection arrives (outbound, then inbound)
 		w.v[0].closeNext = false
+		if quic {
+			n.SetUDP(simnet.UDPConfig{}) // the faults of the wire stop here
+		}
 		if layerB {
 			fw.mode[ipA], fw.mode[ipB] = natOpen, natOpen
 		} else {
 			setReachable(true)
 		}
 		if layerB && !knowsDirect {
-			A.PS.AddAddrs(B.ID, []ma.Multiaddr{B.Addr}, peerstore.PermanentAddrTTL)
+			A.PS.AddAddrs(B.ID, []ma.Multiaddr{addrB}, peerstore.PermanentAddrTTL)
 		}
 		err = with(10*time.Second, func(ctx context.Context) error {
 			c, err := A.Swarm.DialPeer(network.WithForceDirectDial(ctx, "c12"), B.ID)
@@ -1167,7 +1248,7 @@ func runWorld(t *testing.T, tape *simrt.Tape, g simrt.Gen, mode int) *common.Out
 				c.Close()
 			}
 		}
-		B.PS.AddAddrs(A.ID, []ma.Multiaddr{A.Addr}, peerstore.PermanentAddrTTL)
+		B.PS.AddAddrs(A.ID, []ma.Multiaddr{addrA}, peerstore.PermanentAddrTTL)
 		with(10*time.Second, func(ctx context.Context) error {
 			_, err := B.Swarm.DialPeer(network.WithForceDirectDial(ctx, "c12"), A.ID)
 			return err
@@ -1182,6 +1263,12 @@ func runWorld(t *testing.T, tape *simrt.Tape, g simrt.Gen, mode int) *common.Out
 			case d.Outcome == "blackholed":
 				o.Fault("dial-dropped-by-firewall")
 			}
+		}
+		for i := 0; i < fw.dropped && i < 1; i++ {
+			o.Fault("datagram-dropped-by-nat")
+		}
+		if fw.punches > 0 {
+			w.probe("quic-transport-hole-punch-packets")
 		}
 		finished = true
 	})
@@ -1223,6 +1310,14 @@ func runWorld(t *testing.T, tape *simrt.Tape, g simrt.Gen, mode int) *common.Out
 		w.judgeB(&sig)
 	}
 	o.Sig = sig.String()
+	for _, k := range []string{"udp-lost", "udp-duplicated", "udp-delayed"} {
+		if udpCounts[k] > 0 {
+			o.Fault(k)
+		}
+	}
+	if len(udpLeft) > 0 {
+		o.Violate("C12/udp-socket-left-open", "UDP sockets still open after every node was closed: %v", udpLeft)
+	}
 	if len(res.Residue) > 0 {
 		o.Violate("C12/residue", "goroutines left after every host was closed: %v", res.Residue)
 	}
